@@ -1,0 +1,23 @@
+//go:build verif
+
+package roothash
+
+import (
+	tmapi "github.com/oasisprotocol/oasis-core/go/consensus/cometbft/api"
+	roothash "github.com/oasisprotocol/oasis-core/go/roothash/api"
+)
+
+// VerifTryFinalizeRound runs tryFinalizeRoundInsideTx (the round finalization decision of the
+// roothash application) on the given runtime state in the given context and returns its error.
+//
+// Verification hook (property C11): exports a private method, adds no behaviour.
+func VerifTryFinalizeRound(
+	ctx *tmapi.Context,
+	state tmapi.ApplicationState,
+	md tmapi.MessageDispatcher,
+	rtState *roothash.RuntimeState,
+	timeout bool,
+) error {
+	app := New(state, md, nil)
+	return app.tryFinalizeRoundInsideTx(ctx, rtState, timeout)
+}
